@@ -36,6 +36,8 @@ type Case struct {
 	Bulk int `json:"bulk,omitempty"`
 	// Twice: the portal is executed twice
 	Twice bool `json:"twice,omitempty"`
+	// Big: parameter values larger than a page in this portal and in another one (limit raised to 64 KiB)
+	Big bool `json:"big,omitempty"`
 	TLS   bool `json:"tls,omitempty"`
 }
 
@@ -110,6 +112,9 @@ func (c Case) history() (play.History, []string) {
 	if c.Bulk > 0 && h.Cfg.Limit < 1<<20 {
 		h.Cfg.Limit = 1 << 20
 	}
+	if c.Big && h.Cfg.Limit < 1<<16 {
+		h.Cfg.Limit = 1 << 16
+	}
 	h.TLS = c.TLS
 	h.Msgs = []script.CMsg{
 		{K: "P", Name: "s", Query: q},
@@ -183,6 +188,7 @@ func Run(c Case) core.Result {
 	lab(len(c.Params) > 100, ">100-parameters")
 	lab(c.Bulk > 0, ">=32767-parameters")
 	lab(c.Twice, "portal-executed-twice")
+	lab(c.Big, "values-larger-than-a-page-in-two-portals")
 	lab(len(c.Others) > 0, "several-portals-bound-before-execute")
 	lab(len(c.Others) > 0 && c.NameFamily != "", "names="+c.NameFamily)
 	res.Labels = append(res.Labels, "pshape="+c.PShape)
